@@ -143,6 +143,8 @@ public:
 
 	HashMap(int n)
 	{
+		if (n < 1)
+			n = 1;
 		a.resize(nextPoT(n)+ASL_HMAP_SKIP);
 		for(int i=0; i<a.length(); i++)
 			a[i] = 0;
